@@ -51,6 +51,7 @@ def gen_knobs(rng, profile=None):
         "strategy_objects": rng.random() < 0.25,
         "factory_dialects": rng.random() < 0.2,
         "partial_strategies": rng.random() < 0.2,
+        "flaky_factory": rng.random() < 0.15,
         "override_fields": rng.random() < 0.3,
         "inherit": rng.random() < 0.5,
         "n_outer": rng.randint(1, 3),
@@ -161,6 +162,8 @@ class FamilyBuilder:
         if kn["cfg_opts"]:
             for o in ("omit_none", "omit_default", "serialize_by_alias", "sort_keys",
                       "forbid_extra_keys", "namedtuple_as_dict"):
+                if o == "omit_default" and kn.get("flaky_factory"):
+                    continue  # would call the failing factory at class definition
                 if r.random() < 0.15:
                     cfg[o] = True
             if r.random() < 0.1:
@@ -170,7 +173,7 @@ class FamilyBuilder:
             cfg["orjson_options"] = r.choice([["OPT_SORT_KEYS"], ["OPT_INDENT_2"],
                                               ["OPT_INDENT_2", "OPT_SORT_KEYS"]])
         if (kn["cfg_dialect"] and self.dialects and "ADD_DIALECT_SUPPORT" not in cgo
-                and r.random() < 0.4):
+                and not kn.get("flaky_factory") and r.random() < 0.4):
             cfg["dialect"] = r.choice(self.dialects)["name"]
         if not cfg and r.random() < 0.5:
             return None
@@ -237,6 +240,9 @@ class FamilyBuilder:
         mix = self.pick_mixins()
         c = {"name": name, "mixins": mix,
              "fields": self.fields(name.lower() + "_", self.rng.randint(1, 3))}
+        if self.kn.get("flaky_factory") and self.rng.random() < 0.7:
+            c["fields"].append({"n": name.lower() + "_fl", "t": ["list", ["int"]], "d": ["flaky"]})
+            self.flaky = True
         if self.kn.get("union_focus"):
             # the same Union type in several classes that treat its members differently
             c["fields"].insert(0, {"n": name.lower() + "_u", "t": ["union", ["int"], ["date"]]})
@@ -484,6 +490,8 @@ class FamilyBuilder:
         spec = {"pep563": kn["pep563"], "dialects": self.dialects, "chunks": chunks}
         if kn.get("factory_dialects"):
             spec["factory_dialects"] = True
+        if getattr(self, "flaky", False):
+            spec["flaky"] = True
         if self.aux:
             spec["aux"] = self.aux
         return spec
@@ -640,10 +648,10 @@ def gen_value(rng, fam, t, defined, depth=0, kn=None, discr=None):
         for f in fam.all_fields(concrete):
             if f.get("literal") is not None:
                 continue
-            if "d" in f and rng.random() < 0.4:
+            if "d" in f and f["d"][0] != "flaky" and rng.random() < 0.4:
                 continue
             ft = subst(f["t"], tvmap)
-            if depth > 4 and "d" in f:
+            if depth > 4 and "d" in f and f["d"][0] != "flaky":
                 continue
             fields.append([f["n"], gen_value(rng, fam, ft, defined, depth + 1, kn)])
         return ["o", concrete, fields]
@@ -1080,6 +1088,7 @@ def gen_history(rng, spec, kn, n_ops=None):
     ops = []
     codecs = []
     n_ops = n_ops or rng.randint(3, 10)
+    healed = [False]
     for _ in range(n_ops):
         has_callable = bool(callable_classes(fam, defined))
         choices = []
@@ -1095,9 +1104,15 @@ def gen_history(rng, spec, kn, n_ops=None):
             choices += ["codec"] * 2
         if cur < nchunks:
             choices += ["define"] * 2
+        if spec.get("flaky") and not healed[0]:
+            choices += ["heal"] * 2
         if not choices:
             break
         what = rng.choice(choices)
+        if what == "heal":
+            ops.append({"k": "heal"})
+            healed[0] = True
+            continue
         if what == "call":
             ops.append(gen_call(rng, fam, kn, defined))
         elif what == "abort":
@@ -1129,6 +1144,8 @@ def gen_history(rng, spec, kn, n_ops=None):
     while cur < nchunks:
         ops.append({"k": "define", "chunk": cur})
         cur += 1
+    if spec.get("flaky") and not healed[0]:
+        ops.append({"k": "heal"})
     defined = fam.defined_after(cur)
     # final sweep: every class once more, so that state left behind by faults,
     # races or first calls is observed
